@@ -45,6 +45,7 @@ Step(e) ==
       [] e.op = "COp"      -> COp(e.n, <<e.p, e.k>>, FixOp(e.o))
       [] e.op = "Validate" -> Check(e.n)
       [] e.op = "ValidateCollect" -> CheckCollect(e.n)
+      [] e.op = "CopyTree" -> CopyTree(e.src, e.n)
 
 TraceNext ==
     /\ l <= Len(Traces[tid].events)
